@@ -203,6 +203,32 @@ func (e *c19Env) execSelectors(tc *c19Case) (oracle, note string) {
 			return "implicit-route-lost", mm
 		}
 	}
+	// the configuration belongs to the mux it was given to: another mux of the same process,
+	// built afterwards without it, binds none of these rules
+	var m2 *larking.Mux
+	if p, txt := guard(func() { m2, err = larking.NewMux(larking.FilesOption(svc.reg)) }); p {
+		return "panic", txt
+	}
+	if err != nil {
+		return "newmux-error", "second mux without configuration: " + err.Error()
+	}
+	impl2 := &recImpl{}
+	if p, txt := guard(func() { rerr = m2.VerifRegisterService(svc.gsd, dyn.NewServer(impl2)) }); p {
+		return "panic", txt
+	}
+	if rerr != nil {
+		return "registration-refused", "second mux without configuration: " + rerr.Error()
+	}
+	for i := range tc.Selectors {
+		impl2.reset()
+		sr := serveSimple(m2, "GET", fmt.Sprintf("/p%d/x", i), "")
+		if sr.Panicked {
+			return "panic", sr.Panic
+		}
+		if impl2.n != 0 {
+			return "config-leaks-into-another-mux", fmt.Sprintf("selector %q was given to one mux; a second mux built without any service config serves /p%d/x (%s)", tc.Selectors[i], i, impl2.method)
+		}
+	}
 	return "", "ok"
 }
 
